@@ -29,6 +29,8 @@ CODES = {
     6: "observation list and store differ in length",
     7: "a live Running plan was not resumed but closed with reason ExceedRecovery",
     8: "the Vault implements storage.Recovery but coercion.New used it (Search/Read/Update*) before calling Recovery(), or never called it",
+    11: "coercion.New returned an error although its context was live and no store operation fails",
+    12: "coercion.New returned an error, but something was executed or the store is not what a prefix of the closes' writes leaves",
     10: "the Update* calls that closed an aged plan are not the model's write list (the plan row first, then every other row in walk order)",
     9: "inconclusive: the age boundary fell between the clock readings before and after coercion.New",
 }
@@ -198,6 +200,8 @@ def run(ctx):
                 return "live-plan-closed"
             if code == 8:
                 return "vault-used-before-its-recovery"
+            if c["dist"].get("context", "live") != "live":
+                return "new-with-done-context"
             if c["dist"].get("crash_after_write"):
                 return "crash-during-close"
             if code == 10 or (o and o.get("status") == "Running" and o.get("after_reason") == "FRExceedRecovery" and o.get("first_row_written", 0) > 0):
@@ -227,6 +231,9 @@ def run(ctx):
                 why += " -- incarnation 1 died after write %s of start-up recovery (closing a stale Running plan), incarnation 2 then opened the same store: afterwards %s/%s, %d plugin call(s) over both incarnations, %d vault write(s) by incarnation 2, %d object(s) Running" % (
                     c["dist"].get("crash_after_write"), plan_obs.get("after_status"), plan_obs.get("after_reason"), plan_obs.get("plugin_calls", 0),
                     plan_obs.get("vault_writes", 0), plan_obs.get("running_after", 0))
+            elif k == "new-with-done-context":
+                why += " -- coercion.New was handed a context that was %s before the call and returned %s; expected: an error, or a complete recovery - never a Workstream whose Running plans were left alone (theorem c11_new_error_or_complete_recovery)" % (
+                    c["dist"].get("context"), ("the error: " + str(c["dist"].get("new_error"))[:160]) if c["dist"].get("new_returned_error") else "a Workstream and a nil error")
             elif k == "vault-used-before-its-recovery":
                 why = "the Vault implements storage.Recovery; calls in order of first use: %s; calls made before Recovery(): %s" % (
                     c["dist"].get("vault_call_order"), (c["dist"].get("calls_before_recovery") or [])[:8])
@@ -284,6 +291,8 @@ def run(ctx):
         distribution=dict(
             plans_per_store=fw.histogram(c["dist"]["plans"] for c in good),
             case_kind=fw.histogram(c.get("kind") for c in good),
+            context_given_to_new=fw.histogram("%s / recovery %s -> %s" % (c["dist"].get("context"), "on" if c["dist"]["recovery"] else "off",
+                                                                          "error" if c["dist"].get("new_returned_error") else "nil error") for c in good),
             crash_after_write_j=fw.histogram(c["dist"].get("crash_after_write") for c in crash_cases),
             first_row_written_when_closing=fw.histogram(d.get("first_row_written") for c in good if not c["dist"].get("crash_after_write")
                                                         for d in (c.get("observed") or []) if d["status"] == "Running" and d["after_reason"] == "FRExceedRecovery"),
@@ -320,5 +329,6 @@ def run(ctx):
         "storage.Recovery contract: 30% of the stores are opened through a Vault wrapper that implements storage.Recovery and whose Search(Running) lists one or two durably terminal plans as Running until Recovery() has been called (a search index that lags the plan rows after a crash, as cosmosdb's can); observed: Recovery() is called before the first Search/Read/Update*, and the listed plan is neither executed nor written (theorem c11_storage_recovery_first; the real cosmosdb Recovery is not exercised here)",
         "crash during the close: the first incarnation is cut off by a vault wrapper that drops every Update* after the j-th (what the store sees of a process that died there); the order of the Update* calls of every close is compared with the model's write list (plan row first; theorem c11_close_is_crash_safe)",
         "the real *cosmosdb.Vault is asked at run time whether it implements storage.Recovery (violation kind vault-lost-its-recovery-interface); the behavioural part of that probe crafts 'plan item terminal, search entry Running' through the package's fake and calls Recovery(), but with the present verif hooks it stops there: the fake Vault does not wire the unexported recovery{reader, updater} field (Recovery() panics on the fake) and the fake answers a status-only Search with an empty result - see coverage.cosmosdb_recovery_probe.stopped_at",
+        "context already done: 15% of the ordinary stores hand coercion.New a context that was cancelled before the call or whose deadline has passed; since fix 2c25a0f (R8) New returns the error of a failed recovery; the check accepts an error with nothing executed and an untouched / prefix-closed store, or a complete recovery (theorem c11_new_error_or_complete_recovery); other store-operation failures (a failing Search / Read / Update*) are modelled by execute_new's budget but not injected",
         "lastUpdate counts the start/end of every object and of every attempt of every action (since fix d8f84b2, R4); the 'attempt-recent' cases (all states far older than maxAge, one attempt 1 ms old) must be resumed",
     ])
